@@ -5,12 +5,15 @@ B: TLC enumerates every abstract IQ / message / presence / stanza error / stream
    scenario of tla/Stanza.tla.
 C: harness/cmd/codec runs xml.Marshal, Wrap/StartElement, TokenReader, WriteXML and every decoder
    (xml.Unmarshal, token decoder, NewIQ/NewMessage/NewPresence, UnmarshalError, UnmarshalIQError)
-   of the real library on each value; TLC (TrCodec) decides the laws on the observations."""
+   of the real library on each value; plain struct values are sent through real sessions (Encode,
+   EncodeElement, EncodeIQ/Message/Presence(+Element): the token-reader path of internal/marshal),
+   two at a time, and what arrives on the wire is decoded; TLC (TrCodec) decides the laws on the
+   observations."""
 import json
 import verif
 import codeccommon as cc
 
-TYPES = ["iq", "message", "presence", "iq.help", "message.help", "presence.help", "stanzaerror", "streamerror"]
+TYPES = ["iq", "message", "presence", "iq.help", "message.help", "presence.help", "stanzaerror", "streamerror", "encode.pair"]
 
 MC_CFG = '''CONSTANTS
   Tier = "%(tier)s"
@@ -28,7 +31,7 @@ PROPERTY C13_ReplySwaps
 CHECK_DEADLOCK FALSE
 '''
 PROPS = ["C13_AutomatonExact", "C13_AutomatonAgreesWithFunction", "C13_ReplyInDomain", "C13_DoubleReplyRestores",
-         "C13_NormInDomain", "C13_NormIdempotent", "C13_ReplySwaps"]
+         "C13_NormInDomain", "C13_NormIdempotent", "C13_AppIsForeign", "C13_ReplySwaps"]
 
 
 def run(ctx):
@@ -67,6 +70,9 @@ def run(ctx):
         "rule": "every abstract value of Stanza.tla (full product of the %s symbol sets) is one vector; "
                 "error texts: stanza errors carry every subset of 4 (language, text) pairs (a map: 0-4 texts, up to three different tags), "
                 "stream errors every sequence of 0-3 texts over the language tags of ErrLangs in every order (plus repeated tags / empty texts up to 2); "
+                "application-specific conditions: none / an ordinary foreign element on every error, and for every defined condition every foreign element whose local name collides with a name the codec treats specially "
+                "(text, error, iq, message, presence, the condition names - quick: the error's own and one other -, in the application's namespace and in the other error namespace; thorough also the stream and stanza namespaces), with a nested <text/> of the error's own namespace; "
+                "plain values through a session (internal/marshal): every pair (outer call, inner call made from inside the outer call's first transport write on a second session) over the 8 Encode entry points x stanza kinds x types that do not wait x short / longer-than-buffer bodies; "
                 "distinct_nontrivial = distinct abstract token lists (names, attribute names, nesting) produced by all encoders" % tier,
         "laws": ["InDomain", "Complete", "NoFailure", "WellFormed", "PathsAgree", "RoundTrip (incl. helper expectations st/result/errreply/payload/err/iqerr)"],
         "design_check": "MCCodec: all token sequences of length <= %d over 7 tokens; reply helpers and error normal forms over the whole domain" % (5 if quick else 6),
@@ -75,4 +81,5 @@ def run(ctx):
         "stanza structs marshalled by xml.Marshal are decoded inside a stream whose default namespace is the stanza's (Marshal writes no xmlns: the struct tag wins over XMLName.Space)",
         "text alphabet: the symbols of Stanza.tla (XML specials, quotes, non-ASCII incl. astral, blanks/newline/tab, CDATA end, CRLF); characters that XML 1.0 cannot carry are not quantified",
         "type fields range over the defined constants only (the property's quantifier)",
-        "equivalence = equality of the abstract projection (addresses by canonical string, XMLName by namespace and local name)"])
+        "equivalence = equality of the abstract projection (addresses by canonical string, XMLName by namespace and local name)",
+        "plain values through a session: client namespace, non-empty ids, stanza types after which the typed calls do not wait for an answer; the second call is made by the transport of the first (the only caller code that runs inside a transmit call), in one goroutine pinned to one P"])
